@@ -2,7 +2,7 @@
 (* spec -> code: behaviours of the TreeCursor machine with the expected      *)
 (* projected state after every action, emitted as JSON for replay on real    *)
 (* tskit.Tree objects (run with tlc -simulate).                              *)
-EXTENDS MC_TreeCursor, Json
+EXTENDS MC_TreeCursor, Json, IOUtils
 CONSTANT Depth
 VARIABLE hist
 svars == <<ts, o, st, hist>>
@@ -12,7 +12,13 @@ Exp(s) == [index |-> s.index, left |-> s.left, right |-> s.right,
            ns |-> AsSeq(s.ns, NumNodes(ts) + 1), nt |-> AsSeq(s.nt, NumNodes(ts) + 1),
            roots |-> s.roots, numEdges |-> s.numEdges]
 Rec(op, arg) == hist' = Append(hist, [op |-> op, arg |-> arg, exp |-> Exp(st')])
-SInit == Init /\ hist = <<>>
+\* the tree sequences to simulate on are elements of the TLC-enumerated universe (Dump_Universe),
+\* chosen by the harness and passed back in; this keeps the number of initial states small
+SimTs == ndJsonDeserialize(IOEnv.SIMTS)
+SInit == /\ ts \in ToSet(SimTs)
+         /\ o \in {[th |-> th, tracked |-> tr] : th \in Thresholds, tr \in TrackedChoices(ts)}
+         /\ st = NullTree(ts, o)
+         /\ hist = <<>>
 SNext == /\ Len(hist) < Depth
          /\ \/ ANext /\ Rec("next", 0)
             \/ APrev /\ Rec("prev", 0)
